@@ -61,7 +61,7 @@ func c04Scenarios(tier string) []*Scenario {
 	}
 	causes := []cause{
 		{"chclose", false, true}, {"openctx", false, false}, {"break", false, false}, {"opendeadline", false, false},
-		{"chclose", true, true}, {"stop", true, true}, {"openctx", true, false}, {"break", true, false},
+		{"chclose", true, true}, {"stop", true, true}, {"gstop-stop", true, true}, {"openctx", true, false}, {"break", true, false},
 	}
 	sets := map[string][]int{"all": {0, 1, 2, 3, 4}, "u": {0}, "ss": {1}, "cs": {2}, "b": {3}, "h": {4}, "idle": {}}
 	order := []string{"idle", "u", "ss", "cs", "b", "h", "all"}
@@ -204,7 +204,7 @@ func onlyThisFault(w *World, kind string) bool {
 
 func init() {
 	register(&PropDef{ID: "C04", Level: "fault_enumeration",
-		Rule:      "every termination cause {Close on either end, opening-context cancel and deadline, Stop, carrier failure} x {forward, reverse} x {flow control, revision zero} x in-flight RPC sets {none, one per phase, all five phases together} x every quiescent point of the run (quick: carrier/application granularity, the cause plus one further schedule deviation in either order for single-RPC sets, the cause alone for the five-phase set; thorough: every channel operation of the library is a scheduling point as well, and the five-phase set also gets the extra deviation); oracle TERM: no hang, every in-flight call non-OK, every handler context cancelled, Done closed, Err nil iff clean, Serve returned, a later RPC fails, nothing left behind; non-trivial = distinct orders of conflicting accesses",
+		Rule:      "every termination cause {Close on either end, opening-context cancel and deadline, Stop, carrier failure, Stop while a GracefulStop is pending} x {forward, reverse} x {flow control, revision zero} x in-flight RPC sets {none, one per phase, all five phases together} x every quiescent point of the run (quick: carrier/application granularity, the cause plus one further schedule deviation in either order for single-RPC sets, the cause alone for the five-phase set; thorough: every channel operation of the library is a scheduling point as well, and the five-phase set also gets the extra deviation); oracle TERM: no hang, every in-flight call non-OK, every handler context cancelled, Done closed, Err nil iff clean, Serve returned, a later RPC fails, nothing left behind; non-trivial = distinct orders of conflicting accesses",
 		Globals:   []func(*Scenario, *World, *Exec) []Violation{ProtoMonitor},
 		Scenarios: c04Scenarios})
 }
